@@ -7,6 +7,7 @@ import (
 	"github.com/consensys/gnark-crypto/ecc/bn254/fp"
 	"github.com/consensys/gnark-crypto/ecc/bn254/fr"
 	g16 "github.com/consensys/gnark/backend/groth16/bn254"
+	plk "github.com/consensys/gnark/backend/plonk/bn254"
 
 	"github.com/consensys/gnark/verifharness/internal/cvapi"
 )
@@ -93,6 +94,26 @@ func g16TorsionEdits(pa any) []cvapi.Edit {
 	return out
 }
 
+// plkTorsionEdits: every G1 element of a PLONK proof in turn moved outside the prime-order
+// subgroup by a small-order point (the reduced pairing does not see such a shift, only the
+// verifier's subgroup checks do): every such proof must be rejected.
+func plkTorsionEdits(pa any) []cvapi.Edit {
+	p := pa.(*plk.Proof)
+	t, ok := g1Torsion()
+	if !ok {
+		return nil
+	}
+	var out []cvapi.Edit
+	for _, l := range plkG1Leaves(p) {
+		q := plkClone(p)
+		x := l.get(q)
+		x.Add(x, &t)
+		out = append(out, cvapi.Edit{Name: l.name + ":+=torsion", Obj: q, Changed: !plkEqual(p, q)})
+	}
+	return out
+}
+
 func init() {
 	Ops.Ext["G16TorsionEdits"] = g16TorsionEdits
+	Ops.Ext["PlonkTorsionEdits"] = plkTorsionEdits
 }
